@@ -75,6 +75,9 @@ func scenExec(out *scenOut, r *rng, thorough bool) {
 		{1, []int{1}},  // WithAltScreen, then ExitAltScreen
 		{0, []int{0}},  // then EnterAltScreen
 		{8 | 16, []int{5, 8, 0}},
+		{2, []int{4}},    // WithMouseCellMotion, then DisableMouse: no mouse mode may come back with the terminal
+		{4, []int{4}},    // WithMouseAllMotion, then DisableMouse
+		{0, []int{2, 4}}, // EnableMouseCellMotion, then DisableMouse
 	} {
 		execOnce(out, c.bits, c.hist, 2, false, true, "quit", false, 60)
 	}
@@ -206,7 +209,9 @@ func execRestoreFailsThenSignal(out *scenOut, sig syscall.Signal) {
 		want = "interrupted"
 	}
 	if got := errClass(run.err); got != want {
-		out.fail(finding{Property: "C18", Class: "new", What: "wrong Run result after a signal", Input: desc, Expected: want, Observed: got})
+		for _, prop := range []string{"C18", "C04"} {
+			out.fail(finding{Property: prop, Class: "new", What: "wrong Run result after a signal", Input: desc, Expected: want, Observed: got})
+		}
 	}
 }
 
@@ -338,6 +343,7 @@ func execOnce(out *scenOut, bits int, hist []int, nexec int, fail, withCallback 
 	}
 	var problems []string
 	var problemsMu sync.Mutex
+	strayMouse := ""
 	problem := func(p string) { problemsMu.Lock(); problems = append(problems, p); problemsMu.Unlock() }
 	inExec := newGate(false)
 	var execRuns int32
@@ -468,6 +474,13 @@ func execOnce(out *scenOut, bits int, hist []int, nexec int, fail, withCallback 
 		if t.onAlt != want.alt || t.modes[2004] != want.paste || t.modes[1004] != want.focus {
 			problem(fmt.Sprintf("after the exec: terminal{%s}, expected alt=%t paste=%t focus=%t", vtModes(t), want.alt, want.paste, want.focus))
 		}
+		// one-sided for the mouse modes (the library does not re-establish them after an Exec, and no
+		// property says it must): a mouse mode that options and commands say is OFF must not be on
+		if (t.modes[1002] && !spec.m1002) || (t.modes[1003] && !spec.m1003) || (t.modes[1006] && !spec.m1006) {
+			problemsMu.Lock()
+			strayMouse = fmt.Sprintf("after the exec: terminal{%s}, but options and commands ask for m1002=%t m1003=%t m1006=%t", vtModes(t), spec.m1002, spec.m1003, spec.m1006)
+			problemsMu.Unlock()
+		}
 		// the next view is fully repainted
 		waitFor(3*time.Second, func() bool { return strings.Contains(buf.String()[before:], "second line") }) // (a frame tick may be late on a busy machine)
 		after := buf.String()[before:]
@@ -514,6 +527,11 @@ func execOnce(out *scenOut, bits int, hist []int, nexec int, fail, withCallback 
 	}
 	for _, p := range problems {
 		out.fail(finding{Property: "C17", Class: "new", What: p, Input: desc})
+	}
+	if strayMouse != "" {
+		for _, prop := range []string{"C12", "C17"} {
+			out.fail(finding{Property: prop, Class: "new", What: "a mouse mode that neither the options nor the commands processed so far ask for is on after an Exec", Input: desc, Observed: strayMouse})
+		}
 	}
 	// C05: whatever ended the program, the terminal is restored
 	t := newVterm(80, 24)
@@ -729,8 +747,10 @@ func signalAfterReleases(out *scenOut, n int, sig syscall.Signal) {
 	}
 	syscall.Kill(syscall.Getpid(), sig)
 	if !run.wait(2 * time.Second) {
-		out.fail(finding{Property: "C18", Class: "new", What: "a signal did not end the program although the terminal had been restored (signals stayed ignored)", Input: desc,
-			Expected: "Run returns", Observed: "still running after 2s"})
+		for _, prop := range []string{"C18", "C04"} { // (C04: after SIGINT / SIGTERM Run returns)
+			out.fail(finding{Property: prop, Class: "new", What: "a signal did not end the program although the terminal had been restored (signals stayed ignored)", Input: desc,
+				Expected: "Run returns", Observed: "still running after 2s"})
+		}
 		run.p.Kill()
 		run.wait(3 * time.Second)
 		return
@@ -740,7 +760,9 @@ func signalAfterReleases(out *scenOut, n int, sig syscall.Signal) {
 		want = "interrupted"
 	}
 	if got := errClass(run.err); got != want {
-		out.fail(finding{Property: "C18", Class: "new", What: "wrong Run result after a signal", Input: desc, Expected: want, Observed: got})
+		for _, prop := range []string{"C18", "C04"} {
+			out.fail(finding{Property: prop, Class: "new", What: "wrong Run result after a signal", Input: desc, Expected: want, Observed: got})
+		}
 	}
 }
 
@@ -879,8 +901,11 @@ func execProcessReal(out *scenOut) {
 		{"false", []string{"false"}, "exit:1"},
 		{"exit 3", []string{"sh", "-c", "exit 3"}, "exit:3"},
 		{"background child holds the output for 0.6 s", []string{"sh", "-c", "sleep 0.6 &"}, "nil"},
+		{"ended by a signal (SIGKILL to itself)", []string{"sh", "-c", "kill -9 $$"}, "exit:-1"},
+		{"ended by SIGTERM", []string{"sh", "-c", "kill -15 $$"}, "exit:-1"},
+		{"cannot be started", []string{"/nonexistent/verif-no-such-command"}, "start-error"},
 	} {
-		if _, err := exec.LookPath(c.argv[0]); err != nil {
+		if _, err := exec.LookPath(c.argv[0]); err != nil && c.want != "start-error" {
 			continue
 		}
 		ctl := newRecCtl()
@@ -895,7 +920,9 @@ func execProcessReal(out *scenOut) {
 						got.Store(fmt.Sprintf("exit:%d", e.ExitCode()))
 					default:
 						var ee *exec.ExitError
-						if errors.As(err, &ee) {
+						if c.want == "start-error" {
+							got.Store("start-error")
+						} else if errors.As(err, &ee) {
 							got.Store(fmt.Sprintf("wrapped exit:%d (%T)", ee.ExitCode(), err))
 						} else {
 							got.Store(fmt.Sprintf("%T: %v", err, err))
